@@ -571,7 +571,6 @@ package lnwallet
 //@
 //@ func genHtlcSigValidationJobs
 //@   props C01
-//@   requires chanState != nil
 //@   loop * havoc
 //@   site store VerifyJob.HtlcIndex: assert isLocalInitiator == old(chanState.IsInitiator) && chanType == old(chanState.ChanType) &&
 //@        localChanCfg.CsvDelay == old(chanState.LocalChanCfg.CsvDelay) && localChanCfg.DustLimit == old(chanState.LocalChanCfg.DustLimit)
